@@ -408,7 +408,7 @@ func init() {
 		Rule: "full product; non-trivial = every case",
 		Run:  c18Separation})
 	register(&Part{Prop: "C18", Name: "token-positions", Quick: 16, Thor: 32,
-		Desc: "every sequence of <= 4 items (thorough: also 5 items with separators {space, LF, none}) over {identifier, number, :=, (, quoted strings incl. multi-byte and literal newline, raw multi-line string, # comments, /* */ comments incl. multi-line} x separators {space, LF, CRLF, tab, none where the lexer cannot merge}; oracle: Pos = recorded offset, Lline/Lpos recomputed from the source text",
+		Desc: "every sequence of <= 4 items (thorough: also 5 items with separators {space, LF, none}) over {identifier, number, :=, (, quoted strings incl. multi-byte and literal newline, raw multi-line strings incl. bodies that start with, end with or consist only of line breaks, # comments, /* */ comments incl. multi-line and starting with a line break} x separators {space, LF, CRLF, tab, none where the lexer cannot merge}; oracle: Pos = recorded offset, Lline/Lpos recomputed from the source text",
 		Rule: "odometer over items x separators; non-trivial = the source lexes into exactly one token per generated item (others are counted as skipped)",
 		Run: func(c *Ctx) {
 			c18Enumerate(c, 4, c18Seps)
